@@ -19,6 +19,8 @@ func CheckByID(id string) Check {
 		return C10{}
 	case "C12":
 		return C12{}
+	case "C19":
+		return C19{}
 	}
 	return nil
 }
